@@ -30,17 +30,19 @@
 (* could state; Trace_C35 infers their values from the observation before the reload.            *)
 EXTENDS Prolog
 
-Pfx == "zq35_"
+(* every atom of the test programs carries the prefix zq35_ (the footprint accessor counts the atoms with it);    *)
+(* the names are literals: TLC would re-build concatenated strings at every reference                              *)
 Other(f) == IF f = "x" THEN "y" ELSE "x"
-PN(f)    == Pfx \o "p_" \o f          \* p/1 of family f
-QN(f)    == Pfx \o "q_" \o f          \* q/2
-DN(f)    == Pfx \o "dyn_" \o f        \* dynamic d/1
-MN       == Pfx \o "multi"            \* the multifile predicate m/1 shared by all sources
-ON(f)    == Pfx \o "op_" \o f
-FN(f)    == Pfx \o "flt_" \o f
-BN(f)    == Pfx \o "big_" \o f
-SN(f)    == Pfx \o "str_" \o f
-LN(f)    == Pfx \o "long_" \o f
+PN(f)    == IF f = "x" THEN "zq35_p_x" ELSE "zq35_p_y"          \* p/1 of family f
+QN(f)    == IF f = "x" THEN "zq35_q_x" ELSE "zq35_q_y"          \* q/2
+DN(f)    == IF f = "x" THEN "zq35_dyn_x" ELSE "zq35_dyn_y"      \* dynamic d/1
+MN       == "zq35_multi"                                        \* the multifile predicate m/1 shared by all sources
+ON(f)    == IF f = "x" THEN "zq35_op_x" ELSE "zq35_op_y"
+FN(f)    == IF f = "x" THEN "zq35_flt_x" ELSE "zq35_flt_y"
+BN(f)    == IF f = "x" THEN "zq35_big_x" ELSE "zq35_big_y"
+SN(f)    == IF f = "x" THEN "zq35_str_x" ELSE "zq35_str_y"
+LN(f)    == IF f = "x" THEN "zq35_long_x" ELSE "zq35_long_y"
+LongAtom(f) == IF f = "x" THEN "zq35_a_long_atom_value_x" ELSE "zq35_a_long_atom_value_y"
 
 (* constants the term layer treats as opaque atomic values (tags understood by lib/terms.py) *)
 Flt(hex) == [t |-> "f", n |-> hex, i |-> 0, a |-> <<>>]
@@ -90,7 +92,7 @@ TextOf(f, cs, fl) ==
                \o On(fl, "float", <<Fact(C1(FN(f), Flt("3FF4000000000000"))), Fact(C1(FN(f), Flt("42174876E8000000")))>>)   \* 1.25, 2.5e10
                \o On(fl, "big", <<Fact(C1(BN(f), Big("123456789012345678901234567890")))>>)
                \o On(fl, "str", <<Fact(C1(SN(f), Str("hello world string")))>>)
-               \o On(fl, "long", <<Fact(C1(LN(f), A(Pfx \o "a_long_atom_value_" \o f)))>>)]
+               \o On(fl, "long", <<Fact(C1(LN(f), A(LongAtom(f))))>>)]
 Text(code) == TextOf(code.fam, code.cs, code.fl)
 
 (* every predicate a text can define, in a fixed order *)
@@ -100,7 +102,10 @@ KeySeq == << <<PN("x"), 1>>, <<QN("x"), 2>>, <<PN("y"), 1>>, <<QN("y"), 2>>, <<M
 AllKeys == {KeySeq[j] : j \in DOMAIN KeySeq}
 
 DeclOf(text, d) == { <<text.dirs[j].n, text.dirs[j].ar>> : j \in {i \in DOMAIN text.dirs : text.dirs[i].d = d} }
+(* a text (re)defines the predicates it has clauses for and those it declares: the declaration is part of the definition, *)
+(* so a text that only declares a predicate dynamic/discontiguous/multifile leaves its owner without clauses for it       *)
 DefKeys(text)   == { Key(text.cl[j].h) : j \in DOMAIN text.cl }
+                   \cup DeclOf(text, "dynamic") \cup DeclOf(text, "discontiguous") \cup DeclOf(text, "multifile")
 Tagged(text, K, o) == LET s == SelectSeq(text.cl, LAMBDA c : Key(c.h) = K)
                       IN [j \in 1..Len(s) |-> [own |-> o, h |-> s[j].h, b |-> s[j].b]]
 
